@@ -10,7 +10,7 @@ env = dict(os.environ, CARGO_NET_OFFLINE="true")
 env.pop("RUSTFLAGS", None)
 def sh(cmd, **kw):
     p = subprocess.run(cmd, shell=True, cwd=wt, env=env, capture_output=True, text=True, **kw)
-    return p.returncode, (p.stdout + p.stderr)[-2500:]
+    return p.returncode, p.stdout[-3000:] + "\n=== stderr ===\n" + "\n".join(l for l in p.stderr.split("\n") if not l.startswith(("warning", "   ", "    |", "  -->", "     |")) and l.strip())[-3000:]
 def clean():
     sh("git reset -q --hard && git clean -fdq -e target -e Cargo.lock")
 res = {"seed": os.path.basename(seed), "property": meta.get("property"), "at": time.strftime("%F %T")}
@@ -28,13 +28,14 @@ def apply_patch():
     if rc != 0:  # base moved (later fix commits): try a 3-way merge of the patch
         rc, o = sh("git apply --3way --whitespace=nowarn %s/patch.diff" % seed)
         res["patch_needed_3way"] = True
-        if rc == 0 and "with conflicts" in o:
+        if "with conflicts" in o or "conflict" in o.lower():
             rc = 1
+            sh("git reset -q --hard")
     return rc, o
 rc, o = apply_patch()
 res["patch_applies"] = rc == 0
 rc, o = sh(demo_cmd, timeout=3600)
-res["demo_fails_with_patch"] = rc != 0 and ("test result: FAILED" in o or "panicked" in o or "FAILED" in o)
+res["demo_fails_with_patch"] = rc != 0 and "could not compile" not in o and ("test failed" in o or "FAILED" in o or "panicked" in o)
 res["demo_with_log"] = o[-900:]
 # the suite on the patched tree, without the demo
 clean()
